@@ -94,18 +94,24 @@ class ParserState:
             while True:
                 matched = False
 
+                # Each attempt is bracketed on its own, so that a WHITESPACE or
+                # COMMENT rule that fails part way (e.g. after a PUSH) leaves no
+                # trace, whether or not the other one matched in this pass.
                 if whitespace_rule:
-                    matched = whitespace_rule.parse(self, children)
-                    if matched:
+                    self.checkpoint()
+                    if whitespace_rule.parse(self, children):
+                        matched = True
                         some = True
                         pairs.extend(children)
-                        # continue
+                        self.ok()
+                    else:
+                        self.restore()
                     children.clear()
 
                 if comment_rule:
                     self.checkpoint()
-                    matched = comment_rule.parse(self, children) or matched
-                    if matched:
+                    if comment_rule.parse(self, children):
+                        matched = True
                         some = True
                         pairs.extend(children)
                         self.ok()
